@@ -162,6 +162,13 @@ def localise(chk, failing):
 
 
 def signature(r, clause):
+    sig = _signature(r, clause)
+    if r['out']['ok'] and r['out']['v'].get('j') == 'special':
+        sig['result'] = 'non-finite'          # what came back, not a verdict: nan / +-inf returned as a value
+    return sig
+
+
+def _signature(r, clause):
     return {'module': 'Datatypes', 'kind': r['dt']['k'], 'cand': dc.cand_class(r['dt'], r['c']), 'clause': clause,
             'got': 'ok' if r['out']['ok'] else r['out']['e'], 'path': r['path'], 'prev': dc.prev_class(r['c'], r['p'])}
 
